@@ -1,24 +1,31 @@
 ----------------------------- MODULE MC_Client -----------------------------
-(* Bounded instance of Client.tla: histories over MaxConn consecutive connections. *)
-EXTENDS Client
-CONSTANTS MaxConn, MaxSteps
-VARIABLE k
-mvars == <<c, k>>
-MInit == (\E h \in {"none", "start", "api"} : CInitH(h)) /\ k = 0
-Step(S) == /\ k < MaxSteps /\ k' = k + 1 /\ c' \in S
+(* Bounded instance of Client.tla: histories over MaxConn consecutive connections.         *)
+(* GenMode: every distinct state of the client is printed once with the (shortest) history *)
+(* of abstract events that reaches it - the schedules the real APIClient is driven along.  *)
+EXTENDS Client, Json
+CONSTANTS MaxConn, MaxSteps, GenMode
+VARIABLES k, hist, fin
+mvars == <<c, k, hist, fin>>
+mview == <<c, fin>>
+MInit == (\E h \in {"none", "start", "api"} : CInitH(h)) /\ k = 0 /\ hist = <<>> /\ fin = FALSE
+Step(S, tok) == /\ ~fin /\ k < MaxSteps /\ k' = k + 1 /\ c' \in S /\ UNCHANGED fin
+                /\ hist' = IF GenMode THEN Append(hist, tok) ELSE hist
+PhaseKind(j) == <<c.phs[j].k, c.phs[j].op>>
 MNext ==
-  \/ N(c) < MaxConn /\ Step(UserStart(c))
-  \/ N(c) < MaxConn /\ Step(UserConnect(c))
-  \/ N(c) = MaxConn /\ c.ptr # 0 /\ Step(UserStart(c))            \* a refused attempt
-  \/ Step(UserFinish(c))
-  \/ \E f \in BOOLEAN : Step(UserDisconnect(c, f))
-  \/ Step(UserApi(c))
-  \/ \E r \in {"ok", "err"}, j \in 1..Len(c.phs) : Step(PhaseEnd(c, j, r))
-  \/ Step(Progress(c))
-  \/ \E i \in 1..N(c) : Step(EnvClose(c, i))
-  \/ \E i \in 1..N(c) : c.st[i] # "closed" /\ HasIO(c, i) /\ i \notin c.wf /\ Step(EnvWriteFail(c, i))
-  \/ \E i \in c.wf : Step(EnvReset(c, i))
-  \/ \E i \in 1..N(c) : Step(DiscEnd(c, i))
+  \/ N(c) < MaxConn /\ Step(UserStart(c), <<"start">>)
+  \/ N(c) < MaxConn /\ Step(UserConnect(c), <<"connect">>)
+  \/ N(c) = MaxConn /\ c.ptr # 0 /\ Step(UserStart(c), <<"start">>)            \* a refused attempt
+  \/ Step(UserFinish(c), <<"finish">>)
+  \/ \E f \in BOOLEAN : Step(UserDisconnect(c, f), <<"disconnect", f>>)
+  \/ Step(UserApi(c), <<"api">>)
+  \/ \E r \in {"ok", "err"}, j \in 1..Len(c.phs) : Step(PhaseEnd(c, j, r), <<"phase", r, c.phs[j].k>>)
+  \/ Step(Progress(c), <<"progress">>)
+  \/ \E i \in 1..N(c) : Step(EnvClose(c, i), <<"close", IF c.st[i] = "connected" THEN "session" ELSE "early">>)
+  \/ \E i \in 1..N(c) : c.st[i] # "closed" /\ HasIO(c, i) /\ i \notin c.wf /\ Step(EnvWriteFail(c, i), <<"writefail">>)
+  \/ \E i \in c.wf : Step(EnvReset(c, i), <<"reset">>)
+  \/ \E i \in 1..N(c) : Step(DiscEnd(c, i), <<"discend">>)
+  \/ /\ GenMode /\ ~fin /\ Len(hist) >= 2 /\ fin' = TRUE /\ UNCHANGED <<c, k, hist>>
+     /\ PrintT(<<"SCHED", ToJson(<<c.hook, hist>>)>>)
 MSpec == MInit /\ [][MNext]_mvars
 \* vacuity guards: these must be reachable (checked as violated invariants in the self-test)
 NeverSecondSession == ~(N(c) >= 2 /\ c.st[2] = "connected")
